@@ -244,6 +244,6 @@ fn c12_local_revise_max_streams() {
 #[kani::proof]
 #[kani::unwind(7)]
 #[kani::stub(crate::net::tx::ArcSendWakers::wake_all_by, stub_wake_all_by)]
-fn c12_local_revise_max_streams_any_param() {
+fn c12_local_revise_max_streams_any_param_pending() {
     revise_step(VARINT_MAX);
 }
